@@ -1534,7 +1534,11 @@ def process_iter(attrs=None, ad_value=None):
     for pid in gone_pids:
         remove(pid)
     while _pids_reused:
-        pid = _pids_reused.pop()
+        try:
+            pid = _pids_reused.pop()
+        except KeyError:
+            # another thread iterating at the same time emptied the set
+            break
         debug(f"refreshing Process instance for reused PID {pid}")
         remove(pid)
     try:
